@@ -1525,7 +1525,7 @@ def register(PROPS):
                   'C07': (['Time'], ['rs_calculate_max_thinking_time_eq']),
                   'C08': (['Ordering', 'Heuristic'], ['rs_killer_get_eq', 'rs_killer_put_eq', 'rs_sort_key_eq', 'rs_is_checkmate_eq', 'rs_evaluate_eq']),
                   'C11': (['Heuristic', 'Simple'], ['rs_score_from_value_eq', 'rs_evaluate_eq', 'rs_is_checkmate_eq', 'rs_game_stage_eq', 'rs_piece_square_value_eq', 'rs_evaluate_ongoing_eq', 'rs_evaluate_full_eq']),
-                  'C13': (['UciText', 'FindUci'], ['rs_to_uci_string_eq', 'rs_find_uci_eq', 'rs_find_uci_vis', 'rs_make_uci_eq', 'rs_make_uci_vis']),
+                  'C13': (['UciText', 'FindUci', 'MakeAllUci'], ['rs_to_uci_string_eq', 'rs_find_uci_eq', 'rs_find_uci_vis', 'rs_make_uci_eq', 'rs_make_uci_vis', 'rs_make_all_uci_eq']),
                   'C12': (['Fen', 'FenDecode', 'FenFromStr', 'FenRoundtrip', 'FenWrite'],
                           'rs_validate_rank_eq rs_fen_decode_eq rs_fen_decode_fromFenString rs_parse_player_states_eq rs_validate_ranks_eq rs_fen_from_str_eq rs_fen_from_str_startpos rs_fen_read_eq rs_fen_roundtrip_read rs_get_colored_piece_eq rs_fen_write_eq rs_fen_roundtrip'.split()),
                   'C15': (['Square'], ['rs_from_chars_eq']),
